@@ -18,7 +18,12 @@ def main():
     sdir = os.path.join(VERIF, "seeded", sid)
     scratch = tempfile.mkdtemp(prefix="seeded-", dir="/tmp")
     try:
-        subprocess.run(["git", "-C", "/repo", "worktree", "add", "-q", "--detach", scratch + "/wt", "HEAD"], check=True)
+        base = "HEAD"
+        try:        # a few early changes were written before later fix: commits touched the same lines
+            base = json.load(open(os.path.join(sdir, "meta.json"))).get("applies_to_repo_commit", "HEAD")
+        except Exception:
+            pass
+        subprocess.run(["git", "-C", "/repo", "worktree", "add", "-q", "--detach", scratch + "/wt", base], check=True)
         wt = scratch + "/wt"
         subprocess.run(["git", "-C", wt, "apply", os.path.join(sdir, "patch.diff")], check=True)
         res = {}
